@@ -36,3 +36,13 @@ Print Assumptions C05_failed_replicas_isolated.
 Print Assumptions C05_minority_failure_not_surfaced.
 Print Assumptions C05_removed_is_gone.
 Print Assumptions C05_comes_back_only_by_add.
+
+(** the executable trace oracle that the check evaluates on the real controller's observations accepts
+    every trace of the model (single-request histories, any fault scripts, any n observed replicas) *)
+From Jiva Require Import Ctl.Corr Ctl.Oracles Ctl.OracleProofs2.
+
+Theorem C05_oracle_accepts_model_traces : forall es rf0 n w0, (1 <= rf0)%nat -> forallb ev_wf es = true ->
+  walk (lift (c05_step rf0) nopair) 0 (obs0 rf0 n w0) (map One es) (trace n (init rf0 w0) (map One es)) = None.
+Proof. exact c05_oracle_model. Qed.
+
+Print Assumptions C05_oracle_accepts_model_traces.
